@@ -1797,6 +1797,16 @@ class Interp(object):
             it = self.ev(g.iter, env, ctx)
             if isinstance(it, GenVal):
                 it = it.remaining() if not it.done else unk("exhausted_generator")
+            if isinstance(it, (list, tuple)) and not _is_slice(it) and not (isinstance(it, SeqList) and it.seq() is not None) and \
+                    1 <= len(it) <= 16 and not (isinstance(it[0], str) and it[0] in ("enumerate", "zip", "slice")) and \
+                    all(isinstance(x, (Rat, tuple, list)) for x in it):
+                # a comprehension over a literal sequence is the list of its items' values
+                out_ = []
+                for item in it:
+                    st_ = State(dict(env))
+                    self.assign(g.target, item, st_, ctx, e)
+                    out_.append(self.ev(e.elt, st_.env, ctx))
+                return out_
             if not (isinstance(it, SeqList) and it.seq() is not None):
                 env2 = dict(env)
                 # canonical (alpha-renamed) comprehension variable: depth of nesting, not the source name
@@ -2440,6 +2450,14 @@ def _ptp(I, a, k, e, env, ctx):
     return NotImplemented
 
 
+@ext("numpy.ix_")
+def _ix(I, a, k, e, env, ctx):
+    # open mesh: a[ix_(r, c, ...)] picks a[r[i], c[j], ...]
+    if a and all(isinstance(x, Rat) for x in a) and not k:
+        return Rat.atom(Fn("ix_", tuple(a)))
+    return NotImplemented
+
+
 @ext("numpy.stack")
 def _stack(I, a, k, e, env, ctx):
     # stacking along a new leading axis is what numpy.array does with a list of equal-shape arrays
@@ -2550,6 +2568,14 @@ def _next(I, a, k, e, env, ctx):
 
 @ext("builtins.zip")
 def _zip(I, a, k, e, env, ctx):
+    lit = [x for x in a if isinstance(x, (list, tuple)) and not _is_slice(x) and not (isinstance(x, SeqList) and x.seq() is not None)
+           and not (x and isinstance(x[0], str))]
+    if a and not k and lit and all(isinstance(x, (list, tuple, ShapeOf)) for x in a) and len(set(len(x) for x in lit)) == 1 and \
+            len(lit) + sum(1 for x in a if isinstance(x, ShapeOf)) == len(a):
+        # literal sequences of one length (a shape zipped with a tuple of that length names the extents from the end)
+        n = len(lit[0])
+        cols = [list(x) if not isinstance(x, ShapeOf) else [I.shape_elem(x.v, i - n, n) for i in range(n)] for x in a]
+        return [tuple(c[i] for c in cols) for i in range(n)]
     if a and all(isinstance(x, (Rat, list, tuple)) for x in a) and not k:
         return ("zip", tuple(a))
     return NotImplemented
